@@ -123,6 +123,12 @@ def _cases(draw):
         s = form.setdefault("settings", {})
         s["form_id"] = "fid1"
         s["id_string"] = "fid2"
+    if g.lists and g.p("_", 0.15):
+        # duplicate choice names are legal with allow_choice_duplicates; a later duplicate without a label still deserves its warning
+        lst = g.pick(g.lists)
+        src = g.pick(lst["rows"])
+        lst["rows"].append({"name": src["name"]} if g.p("_", 0.7) else dict(src))
+        form.setdefault("settings", {})["allow_choice_duplicates"] = "yes"
     if g.p("_", 0.3):
         form["extra_sheets"] = [g.pick(["setting", "settingss", "_settings", "Settings2", "entity", "entitie", "_entities", "notes", "sett", "choicez", "osmm"])]
     return {"form": form, "meta": {"kind": "random"}}
